@@ -48,6 +48,10 @@ impl<T> ReadBuffer<T> {
     #[allow(clippy::cast_possible_truncation)]
     pub fn push(&self, item: T) {
         let index = STRIPE_INDEX.with(|i| *i) & self.mask;
+
+        #[cfg(feature = "verif")]
+        let index =
+            crate::verif::thread_slot().map_or(index, |slot| slot & self.mask);
         
         if self.shards[index].push(item).is_ok() {
             self.count.fetch_add(1, std::sync::atomic::Ordering::Relaxed);
